@@ -231,6 +231,11 @@ def ducb_zero_frequency():
 Result = namedtuple("Result", ["policy", "global_step"])
 
 
+class Runaway(Exception):
+    """the scheduler keeps calling the single-task routine / stepping far beyond its budget"""
+
+
+
 class TaskEnv(gym.Env):
     """episode of task k lasts LENGTHS[k] steps (truncation), reward REWARDS[k] per step; counts every step"""
 
@@ -262,6 +267,8 @@ class TaskEnv(gym.Env):
 def make_train_st(log):
     def train_st(env, total_timesteps, total_episodes=None, global_step=0, **kw):
         log.append(dict(start=global_step, total=total_timesteps, episodes=total_episodes))
+        if len(log) > 20 * (total_timesteps + 2):
+            raise Runaway(f"single-task routine called {len(log)} times for a budget of {total_timesteps}")
         env.reset()
         step, eps = global_step, 0
         while step < total_timesteps:
@@ -313,6 +320,17 @@ def _quiet(f, *a, **k):
     with contextlib.redirect_stdout(io.StringIO()), warnings.catch_warnings():
         warnings.simplefilter("ignore")
         return f(*a, **k)
+
+
+def _guard(check):
+    def g(*a, **k):
+        try:
+            return check(*a, **k)
+        except Runaway as e:
+            return [f"post.budget: {e}"]
+        except Exception as e:  # noqa: BLE001  (an exception escaping the scheduler is itself a finding)
+            return [f"no_uncaught_exception[{type(e).__name__}]: {e}"]
+    return g
 
 
 def _accounting(base, steps, total, res, n, extra=()):
@@ -371,6 +389,9 @@ def check_smt(lengths, rewards, b1, b2, si, K, solved=5.0, unsolvable=-5.0, kapp
     if any(not (0 <= i < n) for i in ids + rb.ids):
         extra.append("valid_task_id")
     return _accounting(base, steps, b1 + b2, res, n, extra)
+
+
+check_uts, check_amt, check_smt = _guard(check_uts), _guard(check_amt), _guard(check_smt)
 
 
 def scheduler_sweep(which, m):
